@@ -97,6 +97,216 @@ def expr_compiler_cases(rng, tier, fails, dis, stats):
             dis.append((c["src"], "the compiler emits %s, the compiler model %s" % (c["impl_code"][:600], code[:600])))
         else: stats["expr_code_identical"] = stats.get("expr_code_identical", 0) + 1
 
+def gen_texpr(rng, d, ty):
+    """mostly well-typed expression: int-valued or bool-valued over int locals"""
+    sub = lambda t: gen_texpr(rng, d - 1, t)
+    if ty == "int":
+        k = rng.randrange(8) if d > 0 else rng.randrange(2)
+        if k == 0: return ["lit", rng.choice([0, 1, 2, 3, 5, 7, 63, 64])]
+        if k == 1: return ["l", "0"]
+        if k in (2, 3, 4): return ["bin", rng.choice(["add", "sub", "mul", "and", "or", "xor", "andnot"]), sub("int"), sub("int")]
+        if k == 5: return ["bin", rng.choice(["quo", "rem", "shl", "shr"]), sub("int"), ["lit", rng.choice([1, 2, 3, 7])]]
+        if k == 6: return ["un", "sub", sub("int")]
+        return ["cond", sub("bool"), sub("int"), sub("int")]
+    k = rng.randrange(6) if d > 0 else 0
+    if k in (0, 1): return ["bin", rng.choice(["lt", "le", "gt", "ge"]), sub("int") if d > 0 else ["l", "0"], sub("int") if d > 0 else ["lit", rng.choice([0, 1, 3])]]
+    if k == 2: return [rng.choice(["eq", "ne"]), sub("int"), sub("int")]
+    if k == 3: return ["un", "not", sub("bool")]
+    return [rng.choice(["and", "or"]), sub("bool"), sub("bool")]
+
+class StmtGen:
+    """statements of the StmtComp fragment over locals; tracks the slot of every name the way the
+    symbol table assigns them (slot = number of live locals at the definition)"""
+    def __init__(self, rng, nparams=3):
+        self.rng = rng
+        self.scopes = [[("a", 0), ("b", 1), ("c", 2)][:nparams]]
+        self.frozen = set()     # loop variables: never assigned by generated bodies
+        self.fresh = 0
+        self.maxlive = nparams
+        self.kinds = {}
+    def live(self): return [x for sc in self.scopes for x in sc]
+    def expr(self, d, ty=None):
+        if self.rng.randrange(5) == 0: e = gen_cexpr(self.rng, d, 1)
+        else: e = gen_texpr(self.rng, d, ty or self.rng.choice(["int", "int", "bool"]))
+        return self.relocal(e)
+    def relocal(self, e):
+        if e[0] == "l": return ["l", str(self.rng.choice(self.live())[1])]
+        return [e[0]] + [self.relocal(x) if isinstance(x, list) else x for x in e[1:]]
+    def define(self):
+        name = "v%d" % self.fresh; self.fresh += 1
+        idx = len(self.live())
+        self.scopes[-1].append((name, idx))
+        self.maxlive = max(self.maxlive, idx + 1)
+        return name, idx
+    def block(self, d, loop):
+        self.scopes.append([])
+        out = [self.stmt(d, loop) for _ in range(self.rng.choice([1, 1, 2, 3]))]
+        self.scopes.pop()
+        return ["seq"] + out
+    def stmt(self, d, loop):
+        r = self.rng
+        k = r.choice(["set", "set", "def", "exp", "if", "ifelse", "for", "forb", "ctl", "ret"]) if d > 0 else r.choice(["set", "def", "exp", "ctl"])
+        if k == "ctl":
+            k = r.choice(["break", "continue"]) if loop == "full" else ("break" if loop == "breakonly" else "set")
+        if k == "ret" and r.randrange(3): k = "set"
+        self.kinds[k] = self.kinds.get(k, 0) + 1
+        if k == "set":
+            cands = [x for x in self.live() if x[0] not in self.frozen]
+            if not cands: return ["exp", self.expr(2)]
+            return ["set", str(r.choice(cands)[1]), self.expr(r.choice([1, 2, 3]))]
+        if k == "def":
+            e = self.expr(r.choice([1, 2]))        # the initialiser does not see the new name
+            name, idx = self.define()
+            return ["def", str(idx), e]
+        if k == "exp": return ["exp", self.expr(r.choice([1, 2, 3]))]
+        if k == "if": return ["if", self.expr(2, "bool"), self.block(d - 1, loop)]
+        if k == "ifelse":
+            c = self.expr(2, "bool"); a = self.block(d - 1, loop)
+            b = self.block(d - 1, loop) if r.randrange(3) else ["seq", self.stmt_in_scope("ifelse", d - 1, loop)]
+            return ["ifelse", c, a, b]
+        if k == "for":
+            # for i := 0; i < K; i++ { body }
+            self.scopes.append([])
+            name, idx = self.define(); self.frozen.add(name)
+            bound = r.choice([0, 1, 2, 3])
+            body = self.block(d - 1, "full")
+            self.scopes.pop()
+            post = ["set", str(idx), ["bin", "add", ["l", str(idx)], ["lit", 1]]]
+            return ["seq", ["def", str(idx), ["lit", 0]], ["for", ["bin", "lt", ["l", str(idx)], ["lit", bound]], body, post], ["forform", r.randrange(3)]]
+        if k == "forb":
+            # for cond { ...; break }
+            self.scopes.append([])
+            c = self.expr(2, "bool")
+            self.scopes.append([])
+            body = [self.stmt(d - 1, "breakonly") for _ in range(r.choice([0, 1, 2]))] + [["break"]]
+            self.scopes.pop(); self.scopes.pop()
+            return ["for", c, ["seq"] + body, ["skip"]]
+        if k == "ret": return ["ret", self.expr(2)]
+        return [k]
+    def stmt_in_scope(self, what, d, loop):
+        # `else if`: the else branch is an if statement, not a block
+        self.kinds["elseif"] = self.kinds.get("elseif", 0) + 1
+        c = self.expr(2, "bool"); a = self.block(d, loop)
+        if self.rng.randrange(2): return ["if", c, a]
+        return ["ifelse", c, a, self.block(d, loop)]
+
+def render_cstmt(s, names, ind):
+    """source text; names: slot -> name valid at this point (updated by definitions)"""
+    pad = "  " * ind
+    k = s[0]
+    E = lambda e: render_cexpr(e, names)
+    if k == "skip": return ""
+    if k == "seq":
+        saved = dict(names)
+        out = []
+        i = 1
+        while i < len(s):
+            x = s[i]
+            if x[0] == "def" and i + 2 < len(s) and s[i + 1][0] == "for" and s[i + 2][0] == "forform":
+                # the counting loop: init; cond; post
+                saved2 = dict(names)
+                idx = x[1]; names[int(idx)] = "i%s" % idx
+                f = s[i + 1]
+                post = ["i%s++" % idx, "i%s += 1" % idx, "i%s = i%s + 1" % (idx, idx)][s[i + 2][1]]
+                out.append("%sfor i%s := 0; %s; %s {\n%s%s}\n" % (pad, idx, E(f[1]), post, render_cstmt(f[2], names, ind + 1), pad))
+                names.clear(); names.update(saved2)
+                i += 3; continue
+            out.append(render_cstmt(x, names, ind)); i += 1
+        names.clear(); names.update(saved)
+        return "".join(out)
+    if k == "set": return "%s%s = %s\n" % (pad, names[int(s[1])], E(s[2]))
+    if k == "def":
+        e = E(s[2]); names[int(s[1])] = "v%s_%d" % (s[1], len(e) % 7)
+        return "%s%s := %s\n" % (pad, names[int(s[1])], e)
+    if k == "exp": return "%s%s\n" % (pad, E(s[1]))
+    if k == "if": return "%sif %s {\n%s%s}\n" % (pad, E(s[1]), render_cstmt(s[2], names, ind + 1), pad)
+    if k == "ifelse":
+        b = s[3]
+        if len(b) == 2 and b[1][0] in ("if", "ifelse"):      # else if
+            return "%sif %s {\n%s%s} else %s" % (pad, E(s[1]), render_cstmt(s[2], names, ind + 1), pad, render_cstmt(b[1], names, ind).lstrip())
+        return "%sif %s {\n%s%s} else {\n%s%s}\n" % (pad, E(s[1]), render_cstmt(s[2], names, ind + 1), pad, render_cstmt(b, names, ind + 1), pad)
+    if k == "for": return "%sfor %s {\n%s%s}\n" % (pad, E(s[1]), render_cstmt(s[2], names, ind + 1), pad)
+    if k == "ret": return "%sreturn %s\n" % (pad, E(s[1]))
+    return "%s%s\n" % (pad, k)
+
+def strip_forms(s):
+    if not isinstance(s, list): return s
+    return [strip_forms(x) for x in s if not (isinstance(x, list) and x and x[0] == "forform")]
+
+def index_consts_stmt(s, consts):
+    k = s[0]
+    if k in ("skip", "break", "continue"): return s
+    if k == "seq": return ["seq"] + [index_consts_stmt(x, consts) for x in s[1:]]
+    if k in ("set", "def"): return [k, s[1], index_consts(s[2], consts)]
+    if k in ("exp", "ret"): return [k, index_consts(s[1], consts)]
+    if k == "if": return [k, index_consts(s[1], consts), index_consts_stmt(s[2], consts)]
+    if k == "ifelse": return [k, index_consts(s[1], consts), index_consts_stmt(s[2], consts), index_consts_stmt(s[3], consts)]
+    if k == "for": return [k, index_consts(s[1], consts), index_consts_stmt(s[2], consts), index_consts_stmt(s[3], consts)]
+    raise ValueError(k)
+
+def stmt_compiler_cases(rng, tier, fails, dis, stats):
+    """the statement compiler model (StmtComp) against the real compiler: same instruction listing
+    (slots, byte positions, jump targets of if / else / for / break / continue), and real VM result =
+    machine model result = source-level execution"""
+    n = 500 if tier == "quick" else 15000
+    argpool = [["i", "0"], ["i", "1"], ["i", "-3"], ["i", "7"], ["b", "1"], ["b", "0"], ["n"], ["i", str(2**62)], ["s", "x6162"], ["f", "3ff8000000000000"]]
+    cases = []
+    kinds = {}
+    for i in range(n):
+        g = StmtGen(rng)
+        body = ["seq"] + [g.stmt(rng.choice([1, 2, 3]), None) for _ in range(rng.choice([1, 2, 3, 4]))]
+        body.append(["ret", g.expr(2)])
+        for k, v in g.kinds.items(): kinds[k] = kinds.get(k, 0) + v
+        args = [rng.choice(argpool[:4] if rng.randrange(4) else argpool) for _ in range(3)]
+        src = "param (a, b, c)\n" + render_cstmt(body, {0: "a", 1: "b", 2: "c"}, 0)
+        c = mk_case("t%d" % i, "exprcomp", hexs(src), ["args"] + args)
+        c["s"], c["argv"], c["src"], c["nloc"] = strip_forms(body), args, src, g.maxlive
+        cases.append(c)
+    impl, _ = vlib.run_impl([c["line"] for c in cases], timeout=1200)
+    mcases = []
+    for c in cases:
+        r = impl.get(c["id"])
+        if r is None or not r.startswith("(exprcomp"):
+            dis.append((c["src"], "harness answer %s" % str(r)[:200])); continue
+        sx = vlib.parse_sexp(r)
+        consts = [int(v[1]) for v in sx[2][1:] if v[0] == "i"]
+        try: s2 = index_consts_stmt(c["s"], consts)
+        except ValueError:
+            dis.append((c["src"], "a literal of the program is missing from the constant pool %s" % consts)); continue
+        c["impl_code"], c["impl_res"] = vlib.sexp_str(sx[1]), vlib.sexp_str(sx[3])
+        locs = c["argv"] + [["n"]] * (c["nloc"] - 3)
+        mcases.append(mk_case(c["id"], "stmtcomp", s2, sx[2][1:], locs))
+    model, _ = vlib.run_model([m["line"] for m in mcases], timeout=1200)
+    for c in cases:
+        m = model.get(c["id"])
+        if m is None or "impl_code" not in c: continue
+        if not m.startswith("(stmtcomp"):
+            dis.append((c["src"], "model answer %s" % m[:200])); continue
+        sx = vlib.parse_sexp(m)
+        # Compiler.Bytecode appends RETURN 0 when the last instruction is not RETURN or when some jump
+        # target was not met after its jump while scanning (every backward jump, i.e. every loop)
+        listing = sx[1][1:]
+        if any(it[1] in ("JUMP", "JUMPFALSY", "ANDJUMP", "ORJUMP") and int(it[2]) <= int(it[0]) for it in listing) or listing[-1][1] != "RETURN":
+            end = int(listing[-1][0]) + {"RETURN": 2, "POP": 1}.get(listing[-1][1], 0)
+            sx[1] = sx[1] + [[str(end), "RETURN", "0"]]
+        code, spec, mach, wf = vlib.sexp_str(sx[1]), vlib.sexp_str(sx[2]), vlib.sexp_str(sx[3]), sx[4]
+        stats["stmt_cases"] = stats.get("stmt_cases", 0) + 1
+        if wf != "wf":
+            dis.append((c["src"], "the generated statement is outside the theorem's well-formedness condition")); continue
+        if "inconclusive" in spec: stats["stmt_inconclusive"] = stats.get("stmt_inconclusive", 0) + 1; continue
+        if mach != spec:
+            dis.append((c["src"], "the machine model run on the model's code gives %s, the source-level execution %s (contradicts theorem scompile_correct: extraction or driver fault)" % (mach, spec)))
+        if c["impl_res"] != spec:
+            fails.append((c["src"], "compiled execution gives %s, the source-level execution of the statements gives %s (args %s)" % (c["impl_res"][:300], spec[:300], vlib.sexp_str(c["argv"]))))
+        elif code != c["impl_code"]:
+            a, b = vlib.parse_sexp(c["impl_code"])[1:], vlib.parse_sexp(code)[1:]
+            k = next((i for i, (x, y) in enumerate(zip(a, b)) if x != y), min(len(a), len(b)))
+            dis.append((c["src"], "the compiler and the statement compiler model emit different code from instruction %d on: compiler %s, model %s" % (k, vlib.sexp_str(a[max(0, k - 2):k + 4]), vlib.sexp_str(b[max(0, k - 2):k + 4]))))
+        else:
+            stats["stmt_code_identical"] = stats.get("stmt_code_identical", 0) + 1
+            stats["stmt_" + ("value" if spec.startswith("(ok") else "error")] = stats.get("stmt_" + ("value" if spec.startswith("(ok") else "error"), 0) + 1
+    stats["stmt_kinds"] = kinds
+
 def run(rep, br, proofs, rng, tier):
     n = 1500 if tier == "quick" else 40000
     cases, progs = [], {}
@@ -140,6 +350,7 @@ def run(rep, br, proofs, rng, tier):
             elif mode == "n":
                 stats["agree_value" if m.startswith("(ok") else "agree_error"] += 1
     expr_compiler_cases(rng, tier, fails, dis, stats)
+    stmt_compiler_cases(rng, tier, fails, dis, stats)
     if stats["compile_error"] > n // 20 or stats["fuel"] > n // 5:
         dis.append(("", "generator health: %d programs do not compile, %d exceed the interpreter's fuel" % (stats["compile_error"], stats["fuel"])))
     for src, why in fails[:10]:
